@@ -96,6 +96,7 @@ class World:
         self.q, self.cx = q, cx
 
     def post_reload(self, body, content, immediate=True):
+        self.reload_since_display = True
         self.s.post(body)
         self.pending_reload = content
         if immediate and not (self.stdin_open and self.from_stdin):
@@ -107,6 +108,9 @@ class World:
         # exclude / up act on the list that is DISPLAYED: the current result when everything has settled, else the last list
         # that was displayed (searches held by the hook, or a reload that cannot have landed yet)
         self.cur_before = self.current() if self.settled() else self.displayed
+        if ev == "exclude" and not self.settled() and getattr(self, "reload_since_display", False):
+            # D28 shape: the item under the cursor belongs to a display that a reload has already replaced behind the scenes
+            self.stale_exclude = True
         if ev == "HOLD":
             s.hooks.auto.discard("matcher:chunk")
             self.held = True
@@ -232,6 +236,7 @@ def run_seq(job):
                 return res
             w.cy = x["position"]
             w.displayed = list(w.want)
+            w.reload_since_display = False
         # end of the sequence: release held searches, end the input, and demand convergence
         s.hooks.release_all()
         w.held = False
@@ -245,7 +250,13 @@ def run_seq(job):
         if not ok:
             got = None if x is None else {"query": x["query"], "matches": [m["text"] for m in x["matches"]], "matchCount": x["matchCount"],
                                           "total": x["totalCount"], "reading": x["reading"]}
-            res["violation"] = ("not-converged-at-quiescence", {"start": start, "sequence": seq, "fzf": got,
+            cls = "not-converged-at-quiescence"
+            if got is not None and getattr(w, "stale_exclude", False):
+                missing = [l for l in w.want if l not in got["matches"]]
+                extra = [l for l in got["matches"] if l not in w.want]
+                if len(missing) == 1 and not extra and got["query"] == "".join(w.q) and got["total"] == len(w.lines):
+                    cls = "D28:exclude-on-stale-display-after-reload-hides-item-with-same-index"
+            res["violation"] = (cls, {"start": start, "sequence": seq, "fzf": got,
                                                                 "want": {"query": "".join(w.q), "matches": w.want, "total": len(w.lines)}})
         return res
     finally:
